@@ -335,7 +335,7 @@ func windowedCase(idx int64, r *rand.Rand) {
 }
 
 func TestCheck(t *testing.T) {
-	rt.Cases(1200, 240000, func(idx int64) {
+	rt.Cases(6000, 600000, func(idx int64) {
 		r := rt.CaseRand(9, idx)
 		rt.Case()
 		if idx%4 == 0 {
